@@ -72,7 +72,8 @@ def generate(rng, tier):
         s.add("new U"); s.add("add U M")
         def want(a):
             # make the slot readable (most of the time) so that the specification is defined
-            if 0 <= a <= M64 and a % 8 == 0 and a not in memd and rng.chance(7, 8):
+            # (slots that are not 8-aligned too: rows with such slots do not compress, the words are read all the same)
+            if 0 <= a <= M64 and a % 4 == 0 and a not in memd and rng.chance(7, 8):
                 c = rng.below(12)
                 memd[a] = 0 if c == 0 else (0x20000 + rng.below(0x1000) if c < 8 else (lo_base + 8 * rng.below(140)))
         for i, r in enumerate(rows):
